@@ -7,7 +7,7 @@
    agrees with the real one exactly when no addition is stored with its DEFAULT value, and
    its output is not decodable otherwise (witness = the seed's own value). *)
 From Coq Require Import ZArith List Bool Lia.
-From A1 Require Import Base.Bytes Leaf.BerTL Rt.Types Rt.Comb Rt.Der Rt.Uper Rt.Oer Rt.DerProofs Rt.UperProofs Rt.OerProofs
+From A1 Require Import Base.Bytes Leaf.BerTL Rt.Types Rt.Comb Rt.Der Rt.Uper Rt.UperBits Rt.Oer Rt.DerProofs Rt.UperProofs Rt.OerProofs
   Rt.Ext Rt.ExtFormat Rt.ExtProofs Rt.Canonical Rt.CanonicalDefault Rt.CanonicalDefaultProofs Rt.DefaultRt.
 Import ListNotations.
 Local Open Scope Z_scope.
@@ -213,6 +213,61 @@ Proof.
   split; [f_equal; f_equal; unfold zlen; cbn [length]; lia|].
   split; [exact Hq|]. split; [symmetry; apply dflt_equiv_same_der; exact Hq|].
   rewrite <- (dflt_equiv_same_oer dr da t v v' Hq). exact He.
+Qed.
+
+(* the extension bit the decoder reads in the first octet is the one the encoder computed: "some addition is present
+   after elision" *)
+Lemma first_byte_bit (any : bool) (l : list bool) :
+  exists b tl, bits_to_bytes (any :: l) = b :: tl /\ (128 <=? b) = any.
+Proof.
+  unfold bits_to_bytes. cbn [length pack_bits].
+  eexists. eexists. split; [reflexivity|].
+  change (firstn 8 (any :: l)) with (any :: firstn 7 l). set (t := firstn 7 l).
+  assert (Hk : 0 <= zlen t <= 7).
+  { unfold zlen, t. pose proof (firstn_le_length 7 l). lia. }
+  pose proof (bits_val_bound t) as Hb.
+  rewrite zlen_cons. cbn [bits_val].
+  replace (8 - (zlen t + 1)) with (7 - zlen t) by lia.
+  set (k := zlen t) in *. set (P := 2 ^ k) in *. set (Q := 2 ^ (7 - k)).
+  assert (HPQ : P * Q = 128).
+  { unfold P, Q. rewrite <- Z.pow_add_r by lia. replace (k + (7 - k)) with 7 by lia. reflexivity. }
+  assert (HQ : 0 < Q) by (apply Z.pow_pos_nonneg; lia).
+  destruct any.
+  - apply Z.leb_le. nia.
+  - apply Z.leb_gt. nia.
+Qed.
+
+Lemma oer_ext_bit_enc tg root adds rvs avs bs rest :
+  ext_oer (ESeq tg root adds) (EVSeq rvs avs) = Some bs ->
+  oer_ext_bit (bs ++ rest) = existsb is_present avs.
+Proof.
+  cbn [ext_oer].
+  destruct (enc_members oer root rvs) as [body|]; [|discriminate].
+  destruct (enc_additions oer oer_open adds avs) as [ots|]; [|discriminate].
+  cbv zeta.
+  destruct (first_byte_bit (existsb is_present avs) (presence_bits root rvs)) as (b & tl & Hb & Hbit).
+  rewrite Hb.
+  destruct (existsb is_present avs) eqn:Eany.
+  - destruct (oer_ext_bitmap (map is_present avs)) as [bm|]; [|discriminate].
+    intros H. apply some_inj in H. subst bs. cbn [app oer_ext_bit]. exact Hbit.
+  - intros H. apply some_inj in H. subst bs. cbn [app oer_ext_bit]. exact Hbit.
+Qed.
+
+(* the structure SEQUENCE_decode_oer leaves behind, exactly: the root DEFAULTs always stored; the DEFAULTs of the
+   additions stored when some addition was encoded (extension bit set), all additions absent otherwise *)
+Theorem dfl_oer_roundtrip_exact dr da tg root adds rvs avs bs rest :
+  wf_ety_oer (ESeq tg root adds) = true -> wt_ety_oer (ESeq tg root adds) (EVSeq rvs avs) ->
+  dfl_oer dr da (ESeq tg root adds) (EVSeq rvs avs) = Some bs ->
+  dfl_oer_dec dr da (ESeq tg root adds) (bs ++ rest) =
+    Some (EVSeq (fill dr (elide dr rvs))
+                (if existsb is_present (elide da avs) then fill da (elide da avs) else elide da avs), rest).
+Proof.
+  intros Hwf Hwt He. unfold dfl_oer in He. cbn [elide_v] in He.
+  cbn [wt_ety_oer] in Hwt. destruct Hwt as [Hr Ha].
+  assert (Hwt' : wt_ety_oer (ESeq tg root adds) (EVSeq (elide dr rvs) (elide da avs))).
+  { cbn [wt_ety_oer]. split; [apply wt_oer_seq_elide; exact Hr|apply adds_ok_elide; exact Ha]. }
+  pose proof (ext_oer_roundtrip_in_stream _ _ bs rest Hwf Hwt' He) as Hd.
+  unfold dfl_oer_dec. rewrite Hd. rewrite (oer_ext_bit_enc _ _ _ _ _ _ rest He). reflexivity.
 Qed.
 
 (* ---------------- unaligned PER ---------------- *)
